@@ -57,9 +57,9 @@ func c08Failing(keys []val.Item, thorough bool) []drv.Op {
 		add("Upd(condition syntax error)", drv.Op{K: drv.KUpd, Key: k, Upd: rx.U(rx.Set("a", rx.RV(":v"))), CondStr: sp("a = AND"), Values: sv})
 		// ill-typed operands
 		add("Upd(SET a = a + :s)", drv.Op{K: drv.KUpd, Key: k, Upd: rx.U(rx.Set("a", rx.RPlus(rx.RP("a"), rx.RV(":v")))), Values: sv})
-		add("Upd(SET n = missing + :one)", drv.Op{K: drv.KUpd, Key: k, Upd: rx.U(rx.Set("n", rx.RPlus(rx.RP("missing"), rx.RV(":one")))), Values: map[string]val.V{":one": val.N("1")}})
+		add("Upd(SET n = missing + :one)", drv.Op{K: drv.KUpd, Key: k, Upd: rx.U(rx.Set("n", rx.RPlus(rx.RP("absnt"), rx.RV(":one")))), Values: map[string]val.V{":one": val.N("1")}})
 		add("Upd(ADD a :ss on string)", drv.Op{K: drv.KUpd, Key: with(k), Upd: rx.U(rx.Set("a", rx.RV(":v")), rx.Add("h", ":ss")), Values: map[string]val.V{":v": val.S("z"), ":ss": val.SS("q")}})
-		add("Upd(two actions, second fails)", drv.Op{K: drv.KUpd, Key: k, Upd: rx.U(rx.Set("a", rx.RV(":v")), rx.Set("b", rx.RP("missing"))), Values: sv})
+		add("Upd(two actions, second fails)", drv.Op{K: drv.KUpd, Key: k, Upd: rx.U(rx.Set("a", rx.RV(":v")), rx.Set("b", rx.RP("absnt"))), Values: sv})
 		add("Upd(list_append on string)", drv.Op{K: drv.KUpd, Key: k, Upd: rx.U(rx.Set("a", rx.RAppend(rx.RP("h"), rx.RV(":l")))), Values: map[string]val.V{":l": val.L(val.S("e"))}})
 		// failed condition
 		add("Put(condition false)", drv.Op{K: drv.KPut, Item: with(k, "a", val.S("new"), "g", val.S("y")), Cond: rx.Eq("a", ":v"), Values: map[string]val.V{":v": val.S("never")}})
